@@ -80,7 +80,10 @@ def _random_trace_(seed):
     rnd = random.Random(seed)
     dc.boot()
     shape = dc.rand_shape(rnd)
-    w = dc.World(shape)
+    try:
+        w = dc.World(shape)
+    except Exception as e:      # a node the generator is entitled to build cannot be created
+        return {'build_error': repr(e)[:300], 'shape': shape}
     trace = [{'ev': 'shape', 'shape': shape, 'cache': w.cache()}]
     for _ in range(rnd.randint(10, 30)):
         req = dc.rand_request(rnd, shape, trace[-1]['cache'])
@@ -145,7 +148,13 @@ def run(chk):
 
     # 3 code -> spec
     n = 400 if quick else 15000
-    traces = pool_map(_random_trace, [chk.seed * 1000003 + i for i in range(n)])
+    traces = []
+    for x in pool_map(_random_trace, [chk.seed * 1000003 + i for i in range(n)]):
+        if isinstance(x, dict):
+            chk.violation({'module': 'Dispatch', 'clause': 'node.build', 'shape': 'random'},
+                          {'error': x['build_error'], 'shape': x['shape']})
+        else:
+            traces.append(x)
     devs, done, st, tr = dc.validate_events('Trace_Dispatch', traces, 'Trace_Dispatch.cfg', timeout=1000)
     chk.states += st
     chk.transitions += tr
